@@ -6,6 +6,7 @@ import warnings
 
 import common
 from props import accessspec as spec
+from props import c01x as cx
 from props import visitlib as vl
 
 PID = "C01"
@@ -44,11 +45,17 @@ def w_nonliteral(a, n):
 def run(tier, seed, build):
     warnings.simplefilter("ignore")
     res = common.Result(PID)
-    res.rule = ("generated modules (fixed preamble of module-level classes/functions/lambda/namedtuple/imports + 6 functions "
+    res.rule = ("[per function] generated modules (fixed preamble of module-level classes/functions/lambda/namedtuple/imports + 6 functions "
                 "whose bodies are drawn from every statement kind x expression kind x context, nested to depth 3, every "
                 "attribute name unique) + hand-written witnesses; per function: real FunctionAnalyser vs Lean model "
                 "(IR sets with basenames, call records, diagnostics in order, outcome), then the spec walk (every child of "
-                "every node) demands every access in the real IR. non-trivial = distinct function with >= 3 accesses")
+                "every node) demands every access in the real IR; the same for modules whose bodies are dense in displays (tuple / "
+                "list / set / dict with * elements and ** spreads, nested, under return / yield / assignment / arguments / headers). "
+                "[per file] filegen modules + modules made of callables only (functions, classes of every base family with "
+                "initialiser / static methods, named lambdas): real root context + FileAnalyser vs the Lean model, then for every "
+                "callable the specification finds in the source the real FileIr must have an entry holding every access of its "
+                "body; [CLI] two-file projects (target + followed import, flat or package): the same oracle on `-o ir` (target "
+                "and import) and on `-o results`. non-trivial = distinct callable with >= 3 accesses")
     rng = random.Random(seed)
     n_modules = 60 if tier == "quick" else 900
     model = common.Model()
@@ -56,7 +63,11 @@ def run(tier, seed, build):
     from props.bodygen import PREAMBLE
     cases = vl.run_batch(rng, n_modules, model, extra_sources=[(PREAMBLE + WITNESSES, wit_names)])
     cases += vl.run_file_batch(rng, n_modules // 3, model)
-    __import__("props.filestage").filestage.run_file_stage(res, random.Random(seed + 7001), 120 if tier == "quick" else 1500, model)
+    # displays (tuple / list / set / dict with * elements and ** spreads) in every position, above all under `return`
+    rrng = random.Random(seed + 7003)
+    ret_names = [l.split("(")[0][4:] for l in cx.RET_WITNESSES.splitlines() if l.startswith("def ")]
+    ret_sources = [(PREAMBLE + cx.RET_WITNESSES, ret_names)] + [cx.gen_ret_module(rrng) for _ in range(30 if tier == "quick" else 400)]
+    cases += vl.run_batch(rrng, 0, model, extra_sources=ret_sources)
     for c in cases:
         res.evaluations += 1
         case = {"function": c.fn_src}
@@ -83,10 +94,24 @@ def run(tier, seed, build):
             res.violations.append({"signature": sig, "case": case, "missing": {"kind": a.kind, "name": a.name,
                                    "line": a.node.lineno, "col": a.node.col_offset, "path": list(a.path), "tags": list(a.tags)}})
         res.sample({"function": c.fn_src, "gets": c.im["gets"][:6]}, cap=3)
+    # whole files: which callables get an IR (real S2+S4 vs model), then the oracle on the real FileIr
+    file_cases = __import__("props.filestage").filestage.run_file_stage(
+        res, random.Random(seed + 7001), 120 if tier == "quick" else 1500, model)
+    for fc in file_cases:
+        if fc.skipped is None:
+            cx.judge_file_case(res, fc, "filestage")
+    cx.run_unit_stage(res, random.Random(seed + 7005), 60 if tier == "quick" else 700, model)
+    cx.run_project_stage(res, random.Random(seed + 7007), *((36, 8) if tier == "quick" else (400, 40)))
     res.assumptions = [
         "[interp] nested def / lambda / class bodies are exempt from the lower bound (documented unsupported, diagnosed)",
         "[interp] a direct getattr-family call with a literal name is the attribute access (no call record demanded)",
         "functions that end in fatal / crash have no IR and are judged by C07",
+        "[interp] 'that rattr analyses' (whole-file stages): module-level def / async def, `name = lambda …`, the single plain "
+        "`__init__` of a module-level class (whatever its bases are spelled like), `@staticmethod` methods; undecorated, not "
+        "excluded by pattern, the only binding of their name in the module, not re-using a builtin's name (that is diagnosed "
+        "with an error and not analysed). Direct children of the module MUST have an IR entry; the same shapes nested in a "
+        "compound statement are judged when rattr has an entry for them",
+        "`-o results` of the target: the final per-function object must still contain the function's own accesses",
     ]
     return res
 
